@@ -235,7 +235,8 @@ Proof.
       assert (Hc1 : above c0 c1).
       { apply above_trans with (b := c); [assumption|]. exists [], [], [(pc c + 1)%Z]. subst c1. simpl. auto. }
       destruct (exec_list (capture c1) body c1) as [c2|c2|]; simpl.
-      * destruct HR as [Hab Hl]. split; [eapply above_trans; eassumption|rewrite Hl; reflexivity].
+      * destruct HR as [Hab Hl]. split; [|simpl; rewrite Hl; reflexivity].
+        pose proof (above_trans _ _ _ Hc1 Hab) as (d & s & a & H1 & H2 & H3). exists d, s, a. simpl. auto.
       * destruct HR as [Hss Hl].
         assert (Hsame : same_stacks c (restore (capture c) (jump (v_cur (capture c1)) fsize (restore (capture c1) c2)))).
         { destruct Hss as (H1 & H2 & H3). unfold same_stacks, restore, capture, jump in *. simpl in *.
